@@ -70,12 +70,48 @@ def kind_name(v):
     return type(v).__name__
 
 
+class WithValue:
+    """not a number, but carries one (as an OpCode does)"""
+
+    def __init__(self, v):
+        self.value = v
+        self.code = v
+        self.name = "probe"
+
+
+class Indexable:
+    def __init__(self, v):
+        self.v = v
+
+    def __index__(self):
+        return self.v
+
+    def __int__(self):
+        return self.v
+
+
+def PROBE_OPCODE(v):
+    from pyscsi.pyscsi.scsi_opcode import OpCode
+
+    return OpCode("PROBE", v, {})
+
+
 def step_hash(step):
     return sum(map(ord, step))
 
 
 def compare(ctx, enums, wit, step):
-    for idx, (E, model, form) in enumerate(enums):
+    for idx, (E, model, form, holder) in enumerate(enums):
+        if holder is not None:
+            # the enumeration of an OpCode is one object: what was read from the property earlier and what it answers now
+            ctx.count("opcode_property_rereads")
+            again = holder.serviceaction
+            if again is not E and (sorted(again.keys) != sorted(E.keys) or any(getattr(again, k) is not getattr(E, k) for k in E.keys)):
+                ctx.fail("C18:opcode_enumeration_replaced", "enum %d: OpCode.serviceaction answers another enumeration than before (%r, held reference has %r) after %s"
+                         % (idx, sorted(again.keys)[:5], sorted(E.keys)[:5], step), wit)
+            elif again is not E:
+                ctx.count("opcode_property_other_object_same_content")
+                E = again if len(step) % 2 else E  # operate through either view from now on
         try:
             keys = list(E.keys)
         except Exception as e:  # noqa: BLE001
@@ -113,6 +149,8 @@ def compare(ctx, enums, wit, step):
         near = []
         for v in ints[:6]:
             near += [v - 256, v + 256, -v - 1, -v, v + 1, str(v), float(v) + 0.5, (v,)]
+        for v in ints[:3]:
+            near += [WithValue(v), Indexable(v), PROBE_OPCODE(v)]
         far = [-1, -2, -128, -255, -256, -257, 255, 256, 65535, 1 << 40, -(1 << 40), "", "absent", None, (), 0.25]
         for probe in list(model.values()) + [("absent", object)] + near + far[(step_hash(step) % 4)::4]:
             want = ""
@@ -233,9 +271,11 @@ def run(shard, ctx):
                 elif src:
                     del src[rng.choice(list(src))]
                 ctx.count("source_dictionaries_reused")
+            holder = None
             if form == "opcode" and op is not None:
                 E = op.serviceaction  # first looked at only now
-            enums.append((E, dict(init), form))
+                holder = op  # ... and looked at again through the OpCode object at every comparison
+            enums.append((E, dict(init), form, holder))
             log.append(("new", form, {k: kind_name(v) for k, v in init.items()}))
         wit = {"history": log}
         compare(ctx, enums, wit, "construction")
@@ -245,7 +285,9 @@ def run(shard, ctx):
         nsteps = rng.randint(1, 40)
         for step in range(nsteps):
             idx = rng.randrange(len(enums))
-            E, model, form = enums[idx]
+            E, model, form, holder = enums[idx]
+            if holder is not None and rng.random() < 0.5:
+                E = holder.serviceaction  # the operation goes through the OpCode's property, the comparison through the held reference
             op = rng.choice(["add", "add", "remove", "remove", "lookup", "reverse", "keys"] if look_every == 1 else ["add", "remove", "remove", "remove", "add"])
             if op == "add":
                 k = rng.choice(names)
